@@ -15,6 +15,7 @@ import (
 	"time"
 
 	eventbus "github.com/jilio/ebu"
+	"verif/busmodel"
 	"verif/vkit"
 )
 
@@ -44,6 +45,7 @@ type Case struct {
 	CloseErr  bool   `json:"close_err,omitempty"`
 	NoCloser  bool   `json:"no_closer,omitempty"` // store without Close
 	NoStore   bool   `json:"no_store,omitempty"`
+	Ambient   int    `json:"ambient,omitempty"`
 }
 
 type closeStore struct {
@@ -150,6 +152,7 @@ func bubble(c *Case, o *vkit.Outcome) {
 			opts = append(opts, eventbus.WithStore(store))
 		}
 	}
+	opts = append(opts, busmodel.Ambient(c.Ambient&^busmodel.AmbStore)...)
 	bus := eventbus.New(opts...)
 	var nextID atomic.Int32
 	nextID.Store(1000)
